@@ -6,7 +6,8 @@
        removes its timer; an execute() whose handle is aborted never polls its handler again and
        buffers no response; a queued response for an untracked id is dropped (C08).
    (b) cancel_unknown_frame: a Cancel for an untracked id leaves the state unchanged.
-   (c) cascade, C04_cascade_partial: over the abstract composition of an n-node chain, by
+   (c) cascade: C04_chain_cascade (end of file) over the composition of the client and server
+       models, every depth, every op list.  Kept for reference, C04_cascade_partial: over the abstract composition of an n-node chain, by
        induction on the depth; the two client-side facts are hypotheses of the Section (to be
        discharged from the client lemmas), the server-side fact is (a) together with the waker
        contract of AbortHandle::abort (assumed, DESIGN section 4).  REAL chains of depth 1..3 are
@@ -101,3 +102,43 @@ Print Assumptions C04_cancel_unknown_frame.
 Print Assumptions C04_cascade_partial.
 Print Assumptions C04_reuse_after_cancel_refuted.
 Print Assumptions C04_monitor.
+
+(* ------------------------------------------------------------------------------------------ *)
+(* Composition of the client model and the server model (coq/Chain*.v); names are qualified. *)
+From TarpcV Require Client Server Chain ChainSpec ChainCtx ChainProofs.
+(* (c) cascade, on the COMPOSITION of the client model and the server model (coq/Chain.v: node i =
+   client i, a link modelling the two ends of transport::channel::unbounded(), server i; the
+   handler of node i < d-1 is `client_{i+1}.call(ctx_of_request, body).await`; leaves scripted),
+   for EVERY depth d and EVERY op list of fewer than 2^64 - 1 ops (request ids are u64 counters):
+   at every SettleAll that reaches a quiet round, if every head call has been resolved or
+   abandoned and nothing tainted the run (no end of a link dropped, no dispatch / request stream
+   ended, no poll out of fuel, no head deadline beyond MAX_TIMEOUT = 365 days), then every handler
+   that started on ANY node is Done or Dropped and every server's in-flight and timer gauges
+   are 0.  This replaces C04_cascade_partial (whose three per-node facts were hypotheses): the
+   client-side facts come from the client lemmas (Live, dispatch drain), the server-side fact
+   from the server model, and the induction runs over the real composition. *)
+Theorem C04_chain_cascade : forall (d : nat) (ops : list Chain.cop),
+  ChainSpec.chain_no_wrap ops -> Chain.c04c_ok d ops (fst (Chain.run d ops)) = true.
+Proof. exact ChainProofs.chain_cascade. Qed.
+
+(* non-vacuity: depth 3, the head call is abandoned while all three handlers run; the one
+   SettleAll drops them node by node and leaves every gauge at 0; and the monitor does reject a
+   trace in which the last handler is not dropped *)
+Example C04_chain_cascade_nonvacuous :
+  let ops := [Chain.HCall 1000 7 true 5; Chain.SettleAll; Chain.HDrop 0; Chain.SettleAll] in
+  nth 3 (fst (Chain.run 3 ops)) [] =
+    [Chain.KWire 0 [Chain.WCancel 0 15 0]; Chain.KHDropped 0 0; Chain.KExecReady 0 0;
+     Chain.KWire 1 [Chain.WCancel 0 15 0]; Chain.KHDropped 1 0; Chain.KExecReady 1 0;
+     Chain.KWire 2 [Chain.WCancel 0 15 0]; Chain.KHDropped 2 0; Chain.KExecReady 2 0;
+     Chain.KCGauge 0 0 0; Chain.KSGauge 0 0 0; Chain.KCGauge 1 0 0; Chain.KSGauge 1 0 0;
+     Chain.KCGauge 2 0 0; Chain.KSGauge 2 0 0]
+  /\ Chain.c04c_ok 3 ops (fst (Chain.run 3 ops)) = true
+  /\ Chain.c04c_ok 3 ops
+       [[]; nth 1 (fst (Chain.run 3 ops)) []; [];
+        [Chain.KWire 0 [Chain.WCancel 0 15 0]; Chain.KHDropped 0 0; Chain.KExecReady 0 0;
+         Chain.KWire 1 [Chain.WCancel 0 15 0]; Chain.KHDropped 1 0; Chain.KExecReady 1 0;
+         Chain.KCGauge 0 0 0; Chain.KSGauge 0 0 0; Chain.KCGauge 1 0 0; Chain.KSGauge 1 0 0;
+         Chain.KCGauge 2 1 1; Chain.KSGauge 2 1 1]] = false.
+Proof. vm_compute. repeat split; reflexivity. Qed.
+
+Print Assumptions C04_chain_cascade.
